@@ -1093,9 +1093,9 @@ class GenProgram:
 
 
 @st.composite
-def programs(draw, max_stmts=7):
-    g = SGen(draw)
-    multicall = draw(st.integers(0, 5)) == 0
+def programs(draw, max_stmts=7, main_attrs=True, multicall_one_in=6):
+    g = SGen(draw, allow_attrs=main_attrs)
+    multicall = draw(st.integers(0, multicall_one_in - 1)) == 0
     if multicall:
         # one script calling SEVERAL different script functions directly (order of functions / opset imports in to_model_proto)
         dt, rank = g.pick(["FLOAT", "FLOAT", "INT64", "DOUBLE"]), g.pick([0, 1, 2])
